@@ -296,17 +296,35 @@ def tie_stage(pid, obl):
         return res
     untrans = {f['tie']: report[f['name']]['why'] for f in pytrans.FUNCS
                if f.get('tie') in names and not report.get(f['name'], {}).get('ok')}
+    ax = {}
+
+    def parse(raw):
+        flat = re.sub(r'\s+', ' ', raw)
+        for n in names:
+            m = re.search(r"'%s' depends on axioms: \[([^\]]*)\]" % re.escape(n), flat)
+            if m:
+                got = [a.strip() for a in m.group(1).split(',') if a.strip()]
+            elif re.search(r"'%s' does not depend on any axioms" % re.escape(n), flat):
+                got = []
+            else:
+                continue
+            if ax.get(n) is None or set(got) <= ALLOWED_AXIOMS:
+                ax[n] = got
+
     with lean_lock():
-        rc, out = lake(['build', 'NetaddrVerif.Props.Tie'])
-        if rc == 0:
-            ax, _raw = audit(pid + '_tie', {'theorems': names, 'modules': ['NetaddrVerif.Props.Tie']})
-        else:
+        for tmod in obl.get('tie_modules') or ['NetaddrVerif.Props.Tie']:
+            rc, out = lake(['build', tmod])
+            if rc == 0:
+                _ax, raw = audit(pid + '_tie', {'theorems': names, 'modules': [tmod]})
+                parse(raw)
+                continue
             # some theorem no longer elaborates against the regenerated definitions: elaborate a copy of the file
             # with error recovery and ask for the axioms of every theorem (a broken one, and everything that
             # depends on it, shows sorryAx or is missing)
-            lake(['build', 'NetaddrVerif.Lemmas.TieL', 'NetaddrVerif.Model.Convert', 'NetaddrVerif.Model.Subnet',
-                  'NetaddrVerif.Model.Compare', 'NetaddrVerif.Gen.Trans'])
-            src = open(os.path.join(LEAN, 'NetaddrVerif', 'Props', 'Tie.lean'), encoding='utf-8').read()
+            path = os.path.join(LEAN, *tmod.split('.')) + '.lean'
+            src = open(path, encoding='utf-8').read()
+            deps = [m for m in re.findall(r'^import\s+(\S+)', src, re.M)]
+            lake(['build'] + deps)
             src += '\n' + ''.join('#print axioms %s\n' % n for n in names)
             fn = os.path.join(LEAN, 'Audit_%s_tiecopy.lean' % pid)
             with open(fn, 'w', encoding='utf-8') as f:
@@ -314,22 +332,12 @@ def tie_stage(pid, obl):
             try:
                 p = subprocess.run(['lake', 'env', 'lean', os.path.basename(fn)], cwd=LEAN, stdout=subprocess.PIPE,
                                    stderr=subprocess.STDOUT, timeout=1200)
-                raw = p.stdout.decode('utf-8', 'replace')
+                parse(p.stdout.decode('utf-8', 'replace'))
             finally:
                 try:
                     os.remove(fn)
                 except OSError:
                     pass
-            flat = re.sub(r'\s+', ' ', raw)
-            ax = {}
-            for n in names:
-                m = re.search(r"'%s' depends on axioms: \[([^\]]*)\]" % re.escape(n), flat)
-                if m:
-                    ax[n] = [a.strip() for a in m.group(1).split(',') if a.strip()]
-                elif re.search(r"'%s' does not depend on any axioms" % re.escape(n), flat):
-                    ax[n] = []
-                else:
-                    ax[n] = None
     for n in names:
         a = ax.get(n)
         if n in untrans:
@@ -356,7 +364,7 @@ def do_setup():
     with lean_lock():
         rc, out = lake(['build'] + sorted(mods) + ['driver'])
         if rc == 0:
-            rc_t, out_t = lake(['build', 'NetaddrVerif.Props.Tie'])
+            rc_t, out_t = lake(['build', 'NetaddrVerif.Props.Tie', 'NetaddrVerif.Props.TieContains'])
             if rc_t != 0:
                 out += '\n(translation tie module did not build; the checks fall back to correspondence for it)\n' + out_t[-600:]
     sys.stdout.write(out[-3000:])
